@@ -377,3 +377,21 @@ def _parent_attr_call(fi: FuncInfo, inner: ast.Call) -> Optional[ast.Call]:
         if isinstance(c.func, ast.Attribute) and c.func.value is inner:
             return c
     return None
+
+
+@RULES.rule("C03", "R03f", "the compiler is not asked to remove overlaps (the COLRv0 extents contour is an open two-point contour the filter would drop)", floor=2)
+def r03f(model: Model, rr: RuleResult):
+    fi = model.func("write_font", "_make_ttfont")
+    for name in ("compileTTF", "compileOTF"):
+        for c in calls_in(fi):
+            if callee_tail(c) != name:
+                continue
+            ro = kwarg(c, "removeOverlaps")
+            if ro is not None and not (isinstance(ro, ast.Constant) and ro.value is False):
+                rr.bad(fi, c, f"ufo2ft.{name}(..., removeOverlaps={short(ro)}): the overlap filter discards open contours, i.e. the two-point 'extents' contour "
+                       f"_draw_glyph_extents puts into every COLRv0 base glyph; base glyphs become blank and have no bounds", construct=f"_make_ttfont: {name} removeOverlaps")
+            else:
+                rr.ok(f"ufo2ft.{name}: removeOverlaps not requested")
+    de = model.func("write_font", "_draw_glyph_extents")
+    if any(callee_tail(c) in ("moveTo", "lineTo", "endPath") for c in calls_in(de)):
+        rr.ok("_draw_glyph_extents draws an open contour through the pen")
